@@ -129,7 +129,7 @@ fn groups<'a>(g: &Guarded, it: impl Iterator<Item = Result<(Name<'a>, GroupResou
 fn path_of(hexs: &str) -> Vec<u8> { unhex(hexs) }
 
 fn run(g: &Guarded, r: Resources<'_>, a: &[&str]) -> String {
-	let a: Vec<&str> = a.iter().cloned().filter(|x| !x.is_empty() && !x.starts_with("want=") && !x.starts_with("tree=") && !x.starts_with("canon=")).collect();
+	let a: Vec<&str> = a.iter().cloned().filter(|x| !x.is_empty() && !x.starts_with("want=") && !x.starts_with("tree=") && !x.starts_with("canon=") && !x.starts_with("local=")).collect();
 	match (a.get(0).cloned().unwrap_or("all"), a.len()) {
 		("all", _) => format!("fsck={} fmt={} dump={}", match r.fsck() { Ok(()) => "ok".to_string(), Err(e) => format!("err:{}", errname(e)) }, text_s(&format!("{}", r)), dump(g, r)),
 		("dump", 1) => dump(g, r),
